@@ -609,23 +609,8 @@ int main(int argc, char *argv[])
 
     command.trim();
 
-    String arg;
-    int space = command.find(' ');
-
-    if (space != -1)
-    {
-      arg = command.value() + space;
-      arg.trim();
-
-      command.replace_at(space, 0);
-      command.rtrim();
-    }
-
-    if (is_command_valid(command, arg) == false) { continue; }
-
-    bool has_arg = arg.len() != 0;
-
-    // Assembler mode.
+    // Assembler mode: the line is source text, not a command (it must not be
+    // split at the first blank or looked up in the command table).
     if (in_code)
     {
       if (command.len() == 0)
@@ -660,6 +645,22 @@ int main(int argc, char *argv[])
 
       continue;
     }
+
+    String arg;
+    int space = command.find(' ');
+
+    if (space != -1)
+    {
+      arg = command.value() + space;
+      arg.trim();
+
+      command.replace_at(space, 0);
+      command.rtrim();
+    }
+
+    if (is_command_valid(command, arg) == false) { continue; }
+
+    bool has_arg = arg.len() != 0;
 
     if (command.len() == 0)
     {
